@@ -205,6 +205,7 @@ func newEnv(seed uint64, p *Plan, out *Outcome) *env {
 	out.Config = p.label()
 	muxRegReset(0)
 	richIdent.Store(false)
+	identNoCmd.Store(false)
 	spinSettle.on.Store(false)
 	curSim.Store(s)
 	return e
